@@ -6,6 +6,7 @@ import (
 	"bytes"
 	"fmt"
 	"io"
+	"sync"
 
 	"github.com/u-root/uio/ulog"
 )
@@ -96,4 +97,24 @@ func verifCheckNode(p *pathNode, where string) error {
 		}
 	}
 	return nil
+}
+
+// verifPoints holds, per server, a function that is called at named points of
+// request handling at which no lock is held (see verifPoint). Checks use it to
+// own the schedule at those points, the way they own it inside backend calls.
+var verifPoints sync.Map // *Server -> func(name string)
+
+// VerifSetPoint installs (or, with nil, removes) the point function of s.
+func (s *Server) VerifSetPoint(f func(name string)) {
+	if f == nil {
+		verifPoints.Delete(s)
+		return
+	}
+	verifPoints.Store(s, f)
+}
+
+func verifPoint(s *Server, name string) {
+	if f, ok := verifPoints.Load(s); ok {
+		f.(func(string))(name)
+	}
 }
